@@ -267,8 +267,8 @@ MUTANTS = [
     # switch, module, base cfg, constants (quick), constants (thorough), scaled to the real 1024 threshold
     ("LateSnapshot", "KeyOfSetCache", "KeyOfSetCache_CexL.cfg", {"MaxOps": 5}, {"MaxOps": 6}, True),
     ("LateSnapFetch", "KeyOfSetCache", "KeyOfSetCache_Cex.cfg", {"MaxBatches": 2}, {}, False),
-    ("FillOverwrite", "WideColumnCache", "WideColumnCache_Cex.cfg", {"MaxOps": 2}, {}, False),
-    ("NoNegativeEntry", "WideColumnCache", "WideColumnCache_Cex.cfg", {"MaxOps": 2}, {}, False),
+    ("FillOverwrite", "WideColumnCache", "WideColumnCache_Cex.cfg", {"MaxOps": 2, "Keys": "{0}"}, {}, False),
+    ("NoNegativeEntry", "WideColumnCache", "WideColumnCache_Cex.cfg", {"MaxOps": 2, "Keys": "{0}"}, {}, False),
 ]
 
 
